@@ -31,3 +31,19 @@ CLAIMS["C02"] = (
  "runtime monitor: render / re-read / re-render identity, field-by-field hunk identity and identical patch effect on a document panel, over diffs produced by Diff and exhaustively constructed hunk sequences; reader automaton transitions observed through the verif hook VerifReadTrace",
  "Held on every executed diff: ~54k diffs from Diff under 9 option sets with hostile string payloads, all 418 well-formed single hunk shapes, a third (quick) / all (thorough) ordered pairs of them, all pairs and 1/16 (quick) / all (thorough) triples of a reduced shape set, plus real-binary print-then-patch round trips; all 25 reader transitions reachable from well-formed text were driven.",
  TB, "DESIGN.md 5.2")
+CLAIMS["C09"] = (
+ "runtime monitor with reference model: RenderPatch output parsed and evaluated by an independent RFC 6901/6902 evaluator on a and on perturbed targets where the native diff applies; refusal rule checked",
+ "Held on every executed list-mode pair (random incl. pointer-hostile and number-like keys, all array pairs over {1,2,3} up to length 4 at four nestings, the FuzzJd corpus): the rendered patch is well formed, gives b on a, agrees with the native diff on every target where that applies, and is refused exactly for inexpressible keys.",
+ TB + "; RFC 6902 root-replacement reading of DESIGN 5.9", "DESIGN.md 5.9")
+CLAIMS["C10"] = (
+ "runtime monitor with reference model: ReadPatchString + Patch compared with an independent RFC 6902 evaluation of the same patch text on the same document, over jd's own output and six subset-preserving variations",
+ "Held on every executed (patch, target) where jd read and applied the patch: the RFC evaluation succeeded with an equal result (never more permissive or different); jd's own output on a reproduced b; counts of cases where both sides were evaluated are in the evidence.",
+ TB + "; RFC 6902 root-replacement reading of DESIGN 5.9", "DESIGN.md 5.10")
+CLAIMS["C11"] = (
+ "runtime monitor with reference model: RenderMerge output applied to a by the RFC 7386 pseudocode and compared with b under the reading in force",
+ "Held on every executed null-free differing pair under MERGE, SET+MERGE, MULTISET+MERGE (random incl. key removal at depth, type changes, empty containers, b={} ; an exhaustive family of small documents).",
+ TB, "DESIGN.md 5.11")
+CLAIMS["C12"] = (
+ "runtime monitor with reference model: ReadMergeString + Patch compared with the RFC 7386 pseudocode on (target, patch) pairs",
+ "Held on every executed pair (a quarter (quick) / all (thorough) of the product of an exhaustive family of small documents, all root kinds, random deeper pairs with nulls) apart from the two open known findings F15 (empty-object patch values) and F23 (root null), each recognised by classifier + deviation model.",
+ TB, "DESIGN.md 5.12")
